@@ -68,9 +68,9 @@ MANIFEST_TEXT = ('Exhaustive enumeration of FASTA files with 1..3 records of len
                  'and get_contig_lengths, every whole contig and all in-bounds intervals [a,b) in one call (generic and '
                  'string-encoded path, library-written and model-supplied index) are compared with the true substrings. On '
                  'all files of 1..2 records and the 3-record files of the reduced shapes (length<=3,width<=2 / <=4,<=3) '
-                 'additionally: names with descriptions, EVERY interval in a call of its own, the index built with EVERY '
-                 'forced chunk size 1..size+2, reversed batch/label order, and Genome.from_file(fasta).read_sequence() '
-                 '(index written by Genome.from_file and supplied).')
+                 'additionally: names with descriptions, reversed batch/label order, Genome.from_file(fasta).read_sequence() '
+                 '(index written by Genome.from_file, and supplied) and create_index with EVERY forced chunk size '
+                 '1..size+2; on all files of 1..2 records EVERY interval in a call of its own.')
 MANIFEST_NOTE = ('Trusted: NumPy, npstructures, CPython, observer, models/fai.py. LF only; arbitrary interval subsets '
                  'and files above the bound are not explored.')
 
